@@ -909,7 +909,7 @@ func (w *World) ProcessSpecs() error {
 		}
 		// predicates with quantifiers are kept opaque (declare + definitional axiom)
 		// so that congruence closure can identify instances with equal arguments
-		opaque := si.sf.Recursive || strings.Contains(body.T.S, "(forall ") || strings.Contains(body.T.S, "(exists ")
+		opaque := si.sf.Recursive || si.sf.Opaque || strings.Contains(body.T.S, "(forall ") || strings.Contains(body.T.S, "(exists ")
 		if opaque {
 			si.declOnly = fmt.Sprintf("(declare-fun sf!%s (%s) %s)", name, sig, si.result)
 			call := "sf!" + name
